@@ -314,7 +314,10 @@ Proof.
       { apply hash_lexeme_from_spec; [eauto using adv_wf|]. unfold mark.
         rewrite (adv_lstart _ _ Hz2). cbn [mv lstart]. destruct Hws as (_ & ? & _). lia. }
       cbn beta. intros h _.
-      destruct (h =? raw); cbn [safe fst].
+      destruct (h =? raw); [|cbn [safe fst]; split; [eauto using adv_trans|split; [lia|exact I]]].
+      assert (Hwz2 : lx_wf z2) by (eapply adv_wf; [|exact Hz2]; eauto using adv_wf).
+      destruct (pkr0 z2 Hwz2) as (cz & Hcz & _). rewrite Hcz. cbn [rbind].
+      destruct (is_tagend cz || eof0 z2 cz); cbn [safe fst].
       + eapply (adv_rewind z s z2); [exact Ha| |reflexivity].
         eapply adv_trans; [|exact Hz2]. apply adv_mv; [lia|]. destruct Hm2 as (_ & _ & Hm2). cbn [mv lpos] in Hm2.
         rewrite (adv_len _ _ Ha). lia.
@@ -623,7 +626,7 @@ Qed.
 (* ---- shiftEndTag ------------------------------------------------------------------------------------ *)
 Lemma trim_rev_len r : len (trim_rev r) <= len r.
 Proof.
-  induction r as [|c t IH]; cbn [trim_rev]; [lia|]. destruct (is_ws4 c); [rewrite len_cons; lia|lia].
+  induction r as [|c t IH]; cbn [trim_rev]; [lia|]. destruct (is_ws c); [rewrite len_cons; lia|lia].
 Qed.
 
 Lemma trim_end_len_bound bs : 0 <= trim_end_len bs <= len bs.
@@ -637,27 +640,68 @@ Definition shifted_low (z : lx) (v w : sl) (z' : lx) : Prop :=
   lbuf z' = lower_view (lbuf z) w /\ inview w v /\
   so v = lstart z /\ so v + sn v = lpos z' /\ lstart z' = lpos z' /\ lpos z <= lpos z' <= lx_len z.
 
-Lemma shift_endtag_spec z : lx_wf z -> lstart z + 2 <= lpos z ->
-  safe (shift_endtag z) (fun r => shifted_low z (fst (fst r)) (fst (fst r)) (snd r) /\ inview (snd (fst r)) (fst (fst r))
-                                  /\ lx_wf (snd r)).
+Lemma endtag_loop_end z fuel r : loop fuel endtag_body z = Ok r ->
+  (snd r = 1 /\ pk (fst r) 0 = Some 62) \/ (snd r = 0 /\ at_end (fst r) = true).
+Proof.
+  intros H.
+  refine (loop_inv (fun _ => True) (fun r => (snd r = 1 /\ pk (fst r) 0 = Some 62) \/ (snd r = 0 /\ at_end (fst r) = true))
+                   endtag_body _ _ z r I H).
+  clear. intros s x _ Hx. unfold endtag_body, pkr in Hx.
+  destruct (pk s 0) as [c|] eqn:Hp; cbn [opt_res rbind] in Hx; [|discriminate].
+  destruct (c =? 62) eqn:E62; [injection Hx as <-; left; cbn [fst snd]; b2p; subst; tauto|].
+  destruct (eof0 s c) eqn:Ee; injection Hx as <-; [|exact I].
+  right. cbn [fst snd]. unfold eof0 in Ee. b2p. tauto.
+Qed.
+
+Lemma name_run_bound bs : 0 <= name_run bs <= len bs.
+Proof.
+  induction bs as [|c t IH]; cbn [name_run]; [change (len (@nil Z)) with 0; lia|]. rewrite len_cons. destruct (is_tagend c); lia.
+Qed.
+
+(* the view of the tag name inside an end-tag token v of buffer buf: data[2:n] *)
+Definition endtag_name_view (buf : list Z) (v : sl) : sl := mkSl (so v + 2) (name_run (skipz 2 (view_bytes buf v))).
+
+Definition endtag_post (z : lx) (r : sl * sl * lx) : Prop :=
+  let '(v, t', z'') := r in
+  shifted_low z v (endtag_name_view (lbuf z) v) z'' /\ inview t' v /\ lx_wf z'' /\ so t' = so v + 2 /\
+  exists k, 0 <= k /\ so v + 2 + k <= so v + sn v <= so v + 2 + k + 1 /\
+            sn t' = trim_end_len (view_bytes (lbuf z) (mkSl (so v + 2) k)) /\
+            (so v + sn v = so v + 2 + k + 1 -> peekz (lbuf z) (so v + 2 + k) = Some 62).
+
+Lemma shift_endtag_spec z : lx_wf z -> lstart z + 2 <= lpos z -> safe (shift_endtag z) (endtag_post z).
 Proof.
   intros Hw Hpre. unfold shift_endtag.
-  eapply safe_bind; [apply endtag_loop_spec; [exact Hw|apply fuel_enough; reflexivity || lia]|]. cbn beta.
-  intros r Hr. pose proof Hr as (Ha & Hn & Hl).
+  destruct (safe_inv _ _ (endtag_loop_spec z Hw (fuel_of z) ltac:(apply fuel_enough; reflexivity || lia))) as (r & Er & Hr).
+  rewrite Er. cbn [rbind]. pose proof Hr as (Ha & Hn & Hl).
+  assert (Hn1 : snd r <= 1) by (destruct (endtag_loop_end _ _ _ Er) as [[-> _]|[-> _]]; lia).
+  assert (Hgt : snd r = 1 -> peekz (lbuf z) (lpos (fst r)) = Some 62).
+  { intros E1. destruct (endtag_loop_end _ _ _ Er) as [[_ Hpk]|[E0 _]]; [|lia]. unfold pk in Hpk. destruct Ha as (Hb & _). rewrite Hb, Z.add_0_r in Hpk. exact Hpk. }
   pose proof (adv_lpos_le _ _ Ha) as Hle.
   destruct (shift_with_text z (fst r) 2 (snd r)) as (t & v & z' & Ht & Hs & S1 & S2 & S3 & S4); try assumption; try lia.
-  rewrite Ht. cbn [rbind]. rewrite Hs. cbn [rbind safe fst snd].
+  rewrite Ht. cbn [rbind]. rewrite Hs. cbn [rbind fst snd].
   pose proof (lx_wf_len z Hw) as [Hlen _].
   assert (Hs0 : 0 <= lstart z) by (destruct Hw as (_ & ? & _); lia).
   destruct S1 as (B1 & B2 & B3 & B4 & B5). destruct S2 as (I1 & I2 & I3).
   assert (Hw' : lx_wf z').
   { destruct Hw as ((d & Hd) & Hs1 & Hp1). unfold lx_wf. rewrite (lx_len_same z z' B1), B1. split; [eauto|lia]. }
-  split; [|split].
-  - unfold shifted_low, lx_lower. cbn [lbuf lstart lpos]. rewrite B1.
-    split; [reflexivity|]. split; [unfold inview; lia|]. tauto.
-  - pose proof (trim_end_len_bound (view_bytes (lbuf z) t)) as Hb.
-    rewrite len_view_bytes in Hb by lia. unfold inview. cbn [so sn]. lia.
-  - apply lx_lower_wf; [exact Hw'|lia|lia|]. rewrite (lx_len_same z z' B1). lia.
+  assert (Hsn : 2 <= sn v) by lia.
+  replace (2 <=? sn v) with true by (symmetry; apply Z.leb_le; exact Hsn). cbn [safe endtag_post].
+  set (n := name_run (skipz 2 (view_bytes (lbuf z) v))).
+  assert (Hnb : 0 <= n <= sn v - 2).
+  { unfold n. pose proof (name_run_bound (skipz 2 (view_bytes (lbuf z) v))) as Hb.
+    rewrite len_skipz in Hb by (rewrite len_view_bytes by lia; lia). rewrite len_view_bytes in Hb by lia. lia. }
+  (* the text view was taken n bytes before the end of the token, n = 0 or 1 *)
+  rewrite lexeme_from_spec in Ht by (eauto using adv_wf || (rewrite (adv_lstart _ _ Ha); lia)). injection Ht as <-.
+  cbn [so sn] in *. rewrite (adv_lstart _ _ Ha) in *.
+  split; [|split; [|split; [|split]]].
+  - unfold shifted_low, lx_lower, endtag_name_view. cbn [lbuf lstart lpos]. fold n. rewrite B1.
+    split; [reflexivity|]. split; [unfold inview; cbn [so sn]; lia|]. tauto.
+  - pose proof (trim_end_len_bound (view_bytes (lbuf z) (mkSl (lstart z + 2) (lpos (fst r) - lstart z - 2)))) as Hb.
+    rewrite len_view_bytes in Hb by (cbn [so sn]; lia). unfold inview. cbn [so sn] in *. lia.
+  - apply lx_lower_wf; [exact Hw'|cbn [so sn]; lia|cbn [so sn]; lia|]. cbn [so sn]. rewrite (lx_len_same z z' B1). lia.
+  - lia.
+  - exists (lpos (fst r) - lstart z - 2). split; [lia|]. split; [lia|]. cbn [sn]. rewrite B2. split; [reflexivity|].
+    intros E. replace (lstart z + 2 + (lpos (fst r) - lstart z - 2)) with (lpos (fst r)) by lia. apply Hgt. lia.
 Qed.
 
 (* ---- shiftStartTag ---------------------------------------------------------------------------------- *)
